@@ -541,6 +541,17 @@ func (nm *NodeMachine) Apply(op NOp) error {
 					tx.InitiatorSigns, tx.AuthRequireSigns = nil, nil
 				case op.TxMut == "nosig":
 					tx.InitiatorSigns, tx.AuthRequireSigns = nil, nil
+				case op.TxMut == "marked":
+					// a correctly signed transfer that pays out more than it cites, flagged as "modified by the
+					// regulator" (ModifyBlock is ledger-local metadata that neither id nor signature covers)
+					if len(tx.TxOutputs) == 0 || len(tx.ContractRequests) > 0 {
+						mutated = false
+						break
+					}
+					a := new(big.Int).SetBytes(tx.TxOutputs[0].Amount)
+					tx.TxOutputs[0].Amount = a.Add(a, big.NewInt(1000000)).Bytes()
+					SignTx(tx, Ring[op.Txs[i].From])
+					tx.ModifyBlock = &pb.ModifyBlock{Marked: true, EffectiveHeight: height, EffectiveTxid: "00"}
 				case op.TxMut == "othersig":
 					SignTx(tx, Ring[(op.Txs[i].From+1)%5])
 				default:
@@ -549,7 +560,7 @@ func (nm *NodeMachine) Apply(op NOp) error {
 				if mutated {
 					tx.Txid, _ = txhash.MakeTransactionID(tx)
 					valid = false
-					whyNot = fmt.Sprintf("transaction %s is not signed by its initiator (%s)", Hex8(tx.Txid), op.TxMut)
+					whyNot = fmt.Sprintf("transaction %s is not signed by its initiator / does not balance (%s)", Hex8(tx.Txid), op.TxMut)
 					nm.Stat["peer-unsigned-tx:"+op.TxMut]++
 				}
 			}
